@@ -31,21 +31,31 @@ WithAttrs(c, a) == [c EXCEPT !.ident = [i \in 1..c.n |-> a[i] = "id"],
 AttrFam(N, Roots) == {[WithAttrs(Base(N, g), a) EXCEPT !.mode = m, !.locality = lo, !.roots = rs] :
                         g \in GraphsOn(N), a \in [1..N -> Attrs], m \in {"dag", "entity"}, lo \in BOOLEAN, rs \in Roots}
 
-AliasCases == {[Base(4, g) EXCEPT !.aliasOf = <<0, 0, 2, 0>>, !.trk = tk] :
+AliasCases(u) == {[Base(4, g) EXCEPT !.aliasOf = <<0, 0, 2, 0>>, !.trk = tk] :
                  g \in {h \in GraphsOn(4) : h[2] = h[3]}, tk \in {"map", "cidset"}}
 
-BloomCases == {[Base(1, <<<<>>>>) EXCEPT !.roots = <<>>, !.trk = "bloom", !.cap = cp] : cp \in {1, 2}}
+BloomCases(u) == {[Base(1, <<<<>>>>) EXCEPT !.roots = <<>>, !.trk = "bloom", !.cap = cp] : cp \in {1, 2}}
              \cup {[Base(1, <<<<>>>>) EXCEPT !.roots = <<>>, !.trk = "map"]}
 
 \* a fetcher that memoises its link slices matters when nodes are fetched more than once: no tracker
-CachedCases == {[c EXCEPT !.cached = TRUE] : c \in Shapes(4, {<<1>>, <<1, 1>>, <<2, 1>>}, {0}, {"none"})}
+CachedCases(u) == {[c EXCEPT !.cached = TRUE] : c \in Shapes(4, {<<1>>, <<1, 1>>, <<2, 1>>}, {0}, {"none"})}
 
-MQuick    == BloomCases \cup Shapes(4, RootSeqs(4), {0, 2}, {"map", "none"}) \cup AttrFam(3, {<<1>>}) \cup AliasCases \cup CachedCases
-MThorough == BloomCases \cup Shapes(5, {<<1>>, <<3, 1>>}, {0, 3}, {"map"}) \cup AttrFam(3, {<<1>>, <<2, 1>>}) \cup AliasCases \cup CachedCases
-GQuickE   == Shapes(4, {<<1>>, <<2, 1>>, <<1, 1>>}, {0, 2}, {"map", "bloom"}) \cup AttrFam(3, {<<1>>}) \cup AliasCases \cup CachedCases
-GThoroughE == Shapes(5, {<<1>>, <<3, 1>>}, {0, 3}, {"map"}) \cup Shapes(4, RootSeqs(4), {0, 2}, {"map", "bloom", "cidset", "none"})
-              \cup AttrFam(3, {<<1>>, <<2, 1>>}) \cup AliasCases \cup CachedCases
-\* the dedup counter is the only unbounded variable of the tracker-driver configurations
+\* TLC evaluates every parameterless constant definition at start-up, whatever the configuration uses; the
+\* families therefore take a dummy parameter and the configuration selects one by name (CONSTANT Family).
+CONSTANT Family
+MCSel == CASE Family = "MQuick" -> BloomCases(0) \cup Shapes(4, RootSeqs(4), {0, 2}, {"map", "none"}) \cup AttrFam(3, {<<1>>})
+                                   \cup AliasCases(0) \cup CachedCases(0)
+           [] Family = "MThorough" -> BloomCases(0) \cup Shapes(5, {<<1>>, <<3, 1>>}, {0, 3}, {"map"})
+                                      \cup AttrFam(3, {<<1>>, <<2, 1>>}) \cup AliasCases(0) \cup CachedCases(0)
+           [] Family = "MDev" -> CachedCases(0)
+           [] Family = "GQuick" -> Shapes(4, {<<1>>, <<2, 1>>, <<1, 1>>}, {0, 2}, {"map", "bloom"}) \cup AttrFam(3, {<<1>>})
+                                   \cup AliasCases(0) \cup CachedCases(0)
+           [] Family = "GThorough" -> Shapes(5, {<<1>>, <<3, 1>>}, {0, 3}, {"map"})
+                                      \cup Shapes(4, RootSeqs(4), {0, 2}, {"map", "bloom", "cidset", "none"})
+                                      \cup AttrFam(3, {<<1>>, <<2, 1>>}) \cup AliasCases(0) \cup CachedCases(0)
+           [] Family = "GSmall" -> Shapes(3, {<<1>>, <<2, 1>>}, {0, 2}, {"map", "cidset"}) \cup AliasCases(0) \cup CachedCases(0)
+           [] Family = "GAlt" -> CachedCases(0)
+           [] OTHER -> {}
 \* sanity of the deviation model: with DF enabled some memoising-fetcher configuration must behave observably differently
 NoDeviation == dev = {}
 BloomBound == cfg.roots # <<>> \/ dedup <= 2
